@@ -343,6 +343,17 @@ def check(rep, tier, seed):
                 bad.append(({"env": "(catalogue)", "cmd": "dec", "ty": "List(static-catalogue)", "hex": f"{n} levels, {where} stack",
                              "_len": 6 * n + 6}, "release", res,
                             f"decoding List nested {n} levels deep on the {where} stack does not return: {res}"))
+    # the same for a list type WITH an evolution step: every level is a record with a header and chunks, and the decoder
+    # keeps a region per open level
+    for n, where in ((31, "main"), (32, "thread"), (33, "main"), (40, "thread"), (100, "main"), (300, "thread"), (1000, "main")):
+        p = C.run([harness, "deep", str(n), where, "ev"], timeout=120, check=False)
+        out = (p.stdout or "").strip().splitlines()
+        res = out[-1] if out and out[-1].startswith("DEEP") else f"abort rc={p.returncode}"
+        deep[f"{n}/{where}/evolved"] = res
+        if res != f"DEEP {n} ok":
+            bad.append(({"env": "(catalogue)", "cmd": "dec", "ty": "ListEv(static-catalogue)", "hex": f"{n} levels of evolved records, {where} stack",
+                         "_len": 10 * n}, "release", res,
+                        f"decoding an evolved record nested {n} levels deep on the {where} stack does not return a value: {res}"))
     rep.coverage["nesting_depth_probes"] = deep
     C.proof_coverage(rep, ob, "C05", ["known finding F27 (stack exhaustion beyond ~3000 nesting levels): the model has no stack; "
                                       "depth probes at 100 and 1000 levels must succeed, deeper ones are reported as known",
